@@ -489,16 +489,16 @@ func TestHTTPEndpointProviderConverges(t *testing.T) {
 		const nsrc = 2
 
 		m := &model{applied: map[int]string{}}
-		answer := map[string]string{} // path -> outcome kind
-		// path -> how the server names the media type of its answer (with parameters, in another case: RFC 7231, section 3.1.1.1)
-		contentType := map[string]string{}
+		answer := map[int]string{} // source -> outcome kind
+		// source -> how the server names the media type of its answer (with parameters, in another case: RFC 7231, section 3.1.1.1)
+		contentType := map[int]string{}
 
 		remote.Set(func(c vkit.Call) vkit.Reply {
 			var s int
 
 			fmt.Sscanf(c.Path, "/rules/src%d", &s)
 
-			switch kind := answer[c.Path]; kind {
+			switch kind := answer[s]; kind {
 			case "http404", "":
 				return vkit.Reply{Status: 404}
 			case "http500":
@@ -508,7 +508,7 @@ func TestHTTPEndpointProviderConverges(t *testing.T) {
 			case "timeout":
 				return vkit.Reply{Hang: true}
 			default:
-				ct := contentType[c.Path]
+				ct := contentType[s]
 				if ct == "" {
 					ct = "application/yaml"
 				}
@@ -517,11 +517,15 @@ func TestHTTPEndpointProviderConverges(t *testing.T) {
 			}
 		})
 
-		prov, _ := httpendpoint.VerifNewPoller(rec, remote.URL()+"/rules/src0")
+		// how the operator spelled the url of an endpoint: not necessarily the way a url library would write it
+		spelling := rapid.SampledFrom([]string{"", "", "/regeln/pr\u00fcfung.yaml", "/a%7eb.yaml", "/x{y}.yaml", "?tenant=a%2fb&x=\u00fc", "/a%20b/"}).Draw(t, "urlSpelling")
+		vkit.S.LabelIf(spelling != "", "http_endpoint.url_not_in_normalised_spelling")
+
+		prov, _ := httpendpoint.VerifNewPoller(rec, remote.URL()+"/rules/src0"+spelling)
 		fetchers := map[int]httpendpoint.RuleSetFetcher{}
 
 		for s := 0; s < nsrc; s++ {
-			_, f := httpendpoint.VerifNewPoller(rec, fmt.Sprintf("%s/rules/src%d", remote.URL(), s))
+			_, f := httpendpoint.VerifNewPoller(rec, fmt.Sprintf("%s/rules/src%d%s", remote.URL(), s, spelling))
 			fetchers[s] = f
 		}
 
@@ -540,10 +544,10 @@ func TestHTTPEndpointProviderConverges(t *testing.T) {
 				continue
 			}
 
-			answer[fmt.Sprintf("/rules/src%d", s)] = kind
-			contentType[fmt.Sprintf("/rules/src%d", s)] = rapid.SampledFrom([]string{"application/yaml", "application/yaml", "application/yaml", "application/json",
+			answer[s] = kind
+			contentType[s] = rapid.SampledFrom([]string{"application/yaml", "application/yaml", "application/yaml", "application/json",
 				"application/yaml; charset=utf-8", "application/yaml;charset=UTF-8", "Application/YAML"}).Draw(t, "contentType")
-			vkit.S.LabelIf(contentType[fmt.Sprintf("/rules/src%d", s)] != "application/yaml" && len(kind) == 2, "http_endpoint.content_type_spelled_differently")
+			vkit.S.LabelIf(contentType[s] != "application/yaml" && len(kind) == 2, "http_endpoint.content_type_spelled_differently")
 			polls := rapid.IntRange(1, 2).Draw(t, "polls") // repeated polls see unchanged content
 			nt = nt || kind != "v1" && kind != "v2" && kind != "v3" || polls > 1
 
